@@ -1147,3 +1147,24 @@ _h_key = _hist_variant("(question.key, question.type, question.class_)")
 V('c20-history-keyed-by-spelled-name', 'C20', 'C20.ONECOPY', HISTF, _h_spelled[0][1], _h_spelled[0][2], names=['question.name'], more=[_h_spelled[1]])
 V('c20-twin-history-keyed-by-lowered-key', 'C20', 'C20.ONECOPY', HISTF, _h_key[0][1], _h_key[0][2], expect='silent', more=[_h_key[1]],
   )
+
+# ---------------------------------------------------------------- round 10: TXT first occurrence by folded key; lookup omits question for stale records; QU predicate widened
+V('c19-txt-first-occurrence-by-folded-key', 'C19', 'C19.TXT', INFOF,
+  "            if key not in properties:\n                properties[key] = key_sep_value[2] or None",
+  "            if key.lower() not in seen:\n                seen.add(key.lower())\n                properties[key] = key_sep_value[2] or None",
+  names=['_unpack_text_into_properties'], more=[(INFOF, "        properties: Dict[bytes, Optional[bytes]] = {}\n        while index < end:", "        properties: Dict[bytes, Optional[bytes]] = {}\n        seen: Set[bytes] = set()\n        while index < end:")])
+V('c18-question-omitted-for-stale-records', 'C18', 'C18.ASK', INFOF,
+  "        if skip_if_known_answers and known_answers:\n            return",
+  "        if skip_if_known_answers and cache.get_all_by_details(name, type_, class_):\n            return", names=['omit-if-known'])
+V('c16-qu-predicate-counts-probes', 'C16', 'C16.GUARD', INCF,
+  "        return self._has_qu_question\n", "        return self._has_qu_question or self._num_authorities > 0\n", names=['has_qu_question'])
+V('c17-lookup-waits-for-start-in-its-loop', 'C17', 'C17.TIMERS', INFOF,
+  "                if next_ <= now:\n", "                if next_ <= now:\n                    if not zc.started:\n                        await zc.async_wait_for_start()\n", names=['async_request'])
+V('c18-address-eq-ignores-scope', 'C18', 'C18.MATCH', IPF,
+  "class ZeroconfIPv6Address(IPv6Address):\n\n    __slots__ = (\"_str\", \"_is_link_local\", \"_is_unspecified\")\n",
+  "class ZeroconfIPv6Address(IPv6Address):\n\n    __slots__ = (\"_str\", \"_is_link_local\", \"_is_unspecified\")\n\n    def __eq__(self, other: object) -> bool:\n        if type(other) is ZeroconfIPv6Address:\n            return self._ip == other._ip  # type: ignore[attr-defined]\n        return super().__eq__(other)\n\n    __hash__ = IPv6Address.__hash__\n", names=['ZeroconfIPv6Address'])
+V('c11-flush-bit-on-unicast-responses', 'C11', 'C11.FORMAT', '_protocol/outgoing.py',
+  "        if record.unique is True and self.multicast:", "        if record.unique is True and self.is_response():", names=['_write_record_class'])
+V('c09-qu-probe-unanswered-when-recently-multicast', 'C09', 'C09.SHAPE', '_handlers/query_handler.py',
+  "            if self._is_probe:\n                self._ucast.add(record)\n            if not self._has_mcast_within_one_quarter_ttl(record):\n                self._mcast_now.add(record)\n            elif not self._is_probe:\n                self._ucast.add(record)",
+  "            if not self._has_mcast_within_one_quarter_ttl(record):\n                self._mcast_now.add(record)\n                if self._is_probe:\n                    self._ucast.add(record)\n            elif not self._is_probe:\n                self._ucast.add(record)", names=['probe=True'])
